@@ -913,7 +913,7 @@ def evaluate__format_date_time(self: XPathFunction, context: ta.ContextType = No
     if place is not None and zoneinfo is not None:
         try:
             zone = zoneinfo.ZoneInfo(place.strip())
-        except zoneinfo.ZoneInfoNotFoundError:
+        except (zoneinfo.ZoneInfoNotFoundError, ValueError):
             if not isinstance(context, XPathSchemaContext):
                 raise self.error('FOFD1340', f'Invalid place argument {place!r}')
         else:
